@@ -1,9 +1,12 @@
 (* Props/C20.v — property C20: handling requests never alters static schemas, defaults or client
-   configuration.  Only statements, each closed by `exact <lemma>`, with Print Assumptions.
-   Partial: Python aliasing is proved for the transcribed flows; every other in-place write is the
-   business of the deep snapshot diff of harness/drv_C20.py (a check, not a theorem). *)
-From Coq Require Import List Arith Bool.
-From Verif Require Import Lib.Heap Model.Alias Model.AliasFlows Proofs.Alias_proofs.
+   configuration.  Only statements, each closed by `exact <lemma>` (or `vm_compute; reflexivity` for the
+   finite obligations over tables), with Print Assumptions.
+   Partial: Python aliasing is proved for the hand-transcribed flows (Model/AliasFlows.v) and for the flows that
+   harness/py2alias.py regenerates from the CURRENT source of the listed functions on every run
+   (Gen/AliasGen.v); every other in-place write is the business of the deep snapshot diff of
+   harness/drv_C20.py (a check, not a theorem). *)
+From Coq Require Import List Arith Bool String.
+From Verif Require Import Lib.Heap Model.Alias Model.AliasFlows Model.AliasTie Gen.AliasGen Proofs.Alias_proofs.
 Import ListNotations.
 
 (* Soundness of the ownership discipline: for EVERY instruction list accepted by the checker, EVERY
@@ -31,6 +34,70 @@ Proof.
   pose proof C20_current_flows_checked as H. rewrite forallb_forall in H. now apply H.
 Qed.
 Print Assumptions C20_current_flows_no_static_write.
+
+(* ================= the flows regenerated from the source on this run (Gen/AliasGen.v) =================
+   harness/py2alias.py re-reads the current source of every function in its TARGETS list and emits one
+   instruction list per control-flow path.  The obligations below are re-checked against what the code says now. *)
+
+(* every listed function was translated: nothing fell outside the translator's subset, no callee outside the
+   curated table was handed a possibly shared object, no function disappeared *)
+Theorem C20_generated_translation_complete : gen_refused = [].
+Proof. vm_compute; reflexivity. Qed.
+Print Assumptions C20_generated_translation_complete.
+
+(* every path of every translated function is accepted by the ownership checker *)
+Theorem C20_generated_flows_checked : forallb g_checked generated_flows = true.
+Proof. vm_compute; reflexivity. Qed.
+Print Assumptions C20_generated_flows_checked.
+
+(* ... hence no execution of any generated flow, from any heap and register file, writes an object that existed
+   before the flow started (a stored client record, provider_info, endpoint kwargs, a class-level table, a module
+   constant, a mutable default argument) *)
+Theorem C20_generated_flows_no_static_write : forall g, In g generated_flows ->
+  forall (h0 : heap) (e0 : env) s', run (g_flow g) (h0, e0, fun _ => false) s' ->
+  forall l, h0 l <> None -> fst (fst s') l = h0 l.
+Proof. exact (checked_flows_no_static_write generated_flows C20_generated_flows_checked). Qed.
+Print Assumptions C20_generated_flows_no_static_write.
+
+(* the return contracts that translated callers assume of translated callees hold on the callees' own paths:
+   "returns a new object" (typed F) and, where promised, "that reaches no shared object" (the flow ends untainted);
+   e.g. AuthzHandling.usage_rules, whose result becomes grant.usage_rules and is written by set_defaults *)
+Theorem C20_generated_return_contracts : forallb g_contract_ok generated_flows = true.
+Proof. vm_compute; reflexivity. Qed.
+Print Assumptions C20_generated_return_contracts.
+
+(* the generated flows of the hand-transcribed functions agree with the transcriptions in what matters: the
+   discipline types what the function returns the same way in both (new object / possibly shared) ... *)
+Theorem C20_generated_returns_agree_with_transcribed : forallb (ret_ok generated_flows) ret_rows = true.
+Proof. vm_compute; reflexivity. Qed.
+Print Assumptions C20_generated_returns_agree_with_transcribed.
+
+(* ... and the locals that the driver probes on the real objects (rows whose local was renamed say nothing) ... *)
+Theorem C20_generated_agree_with_transcribed : forallb (agree_ok generated_flows) agree_rows = true.
+Proof. vm_compute; reflexivity. Qed.
+Print Assumptions C20_generated_agree_with_transcribed.
+
+(* ... and they load the static roots the transcriptions load *)
+Definition gen_root_rows : list (string * loc) :=
+  [ ("find_token", GR_class_c_param); ("find_token_info", GR_class_c_param);
+    ("AuthzHandling.usage_rules", GR_grant_config); ("AuthzHandling.usage_rules", GR_cdb);
+    ("Authorization._enforce_resource_indicators_policy", GR_endpoint);
+    ("ClaimsInterface._client_claims", GR_cdb); ("ClaimsInterface._client_claims", GR_claims_kwargs);
+    ("UserInfo.process_request", GR_ep_config); ("UserInfo.process_request", GR_cdb);
+    ("TokenRevocation.process_request", GR_cdb); ("TokenRevocation.process_request", GR_endpoint);
+    ("Endpoint.do_response", GR_const_OAUTH2_NOCACHE_HEADERS);
+    ("Grant.__init__", GR_const_TOKEN_MAP);
+    ("AuthzHandling.__call__", GR_grant_config);
+    ("Session.do_back_channel_logout", GR_client_record); ("Session.do_back_channel_logout", GR_provider_info);
+    ("ProviderConfiguration.process_request", GR_provider_info) ].
+Theorem C20_generated_roots : forallb (root_ok generated_flows) gen_root_rows = true.
+Proof. vm_compute; reflexivity. Qed.
+Print Assumptions C20_generated_roots.
+
+(* the regenerated part is not empty *)
+Example C20_generated_nonempty :
+  (Nat.leb 30 gen_functions && Nat.leb 100 (List.length generated_flows) && Nat.leb 300 (n_writes generated_flows))%bool = true.
+Proof. vm_compute; reflexivity. Qed.
 
 (* non-vacuity of the discipline: each pre-repair variant is rejected, at the aliasing write *)
 Example C20_prefix_flows_rejected : forallb (fun p => negb (check p)) prefix_flows = true.
